@@ -196,6 +196,8 @@ def check_image_pair(case, rec):
                 it.close()
             return ("ok", image.tell())
         except Exception as e:
+            if gen.is_pil_apng_defect(e):
+                return ("pil_apng_defect",)
             return ("err", type(e).__name__)
 
     size_changed = False
@@ -214,6 +216,13 @@ def check_image_pair(case, rec):
         if o["op"] in ("set_size", "dynamic"):
             size_changed = True
         a, b = step(A, ia, o), step(B, ib, o)
+        if "pil_apng_defect" in (a[0], b[0]):
+            # Pillow's own APNG decoder failed on a backward seek (see gen.is_pil_apng_defect): excluded, counted
+            for x in (A, B, ia, ib):
+                x.close()
+            rec.label("excluded:pil_apng_seek_defect")
+            rec.count("excluded_pil_apng_seek_defect", 1)
+            return
         if a != b:
             raise Violation(
                 f"cached and uncached ImageIterator diverge at {o}: {str(a)[:200]} vs {str(b)[:200]} "
